@@ -137,10 +137,10 @@ def run(ctx):
     elif f2["raised"] == "TypeError" and "cannot pickle 'generator' object" in f2.get("message", ""):
         if f2["shm_left"]:
             S.violation(dict(rep, shm_left=f2["shm_left"]), "the failed call left shared-memory blocks behind")
-        if known:
+        if known and not any(k.startswith(kf[0]["line"]) for k in ctx.known):
             ctx.known_finding(kf[0]["line"] + f" [reproduced: TypeError at fill_queue_process.start(); "
                               f"{len(f2['orphans'])} orphaned child process(es) killed by the harness]")
-        else:
+        elif not known:
             S.violation(rep, "parallel_add(items=<generator>) raises TypeError: cannot pickle 'generator' object")
     elif f2["raised"]:
         S.violation(rep, f"parallel_add(items=<generator>) fails in a new way: {f2['raised']}: {f2.get('message')}")
